@@ -1143,7 +1143,16 @@ def kind_of_current_node(check: Check, repo: Repo, rule: str = "KIND-CURRENT") -
             continue
         ok, why = False, f"`{unparse(arg)}` is not node.kind"
         if isinstance(arg, ast.Name):
-            eq = [f for f in flow.facts_at(c) if f.kind == "eq" and f.name == arg.id and unparse(f.expr) == "node.kind"]
+            facts = flow.facts_at(c)
+            eq = [f for f in facts if f.kind == "eq" and f.name == arg.id and unparse(f.expr) == "node.kind"]
+            if not eq:
+                # `kind = None if in_array else node.kind` used in the matching arm of `... if in_array else ...`
+                for f in facts:
+                    if f.kind == "eq" and f.name == arg.id and isinstance(f.expr, ast.IfExp):
+                        arm = "body" if unparse(f.expr.body) == "node.kind" else ("orelse" if unparse(f.expr.orelse) == "node.kind" else None)
+                        sel = next((a for a in _anc(c) if isinstance(a, ast.IfExp) and unparse(a.test) == unparse(f.expr.test)), None)
+                        if arm and sel is not None and any(x is c for x in ast.walk(getattr(sel, arm))):
+                            eq = [f]
             ok = bool(eq)
             why = f"{arg.id} == node.kind holds on every path to the call" if ok else \
                 f"no must-fact `{arg.id} == node.kind` here: `node` may have been rebound since `{arg.id}` was read"
